@@ -487,8 +487,10 @@ def run(tier):
     rep.need_instances("R11.life operations compared", nlife, 100)
     rep.need_instances("R11.life operations that reach an allocator member (positive instances)", nlife_pos, 40)
     rep.explanation = ("Instantiation witnesses (clang front end): the operations of the other properties' drivers compile with a fancy pointer that has no conversion "
-                       "to or from raw addresses, so no instantiated library code assumes one; the pointer type is carried through the typedefs; and a def-use "
-                       "rule on the unoptimised IR of that instantiation: raw element addresses obtained from a fancy pointer are never used for element arithmetic. "
+                       "to or from raw addresses, so no instantiated library code assumes one; the pointer type is carried through the typedefs; a def-use "
+                       "rule on the unoptimised IR of that instantiation: raw element addresses obtained from a fancy pointer are never used for element arithmetic; "
+                       "per operation the allocator members reachable in the call graph are the same as in the raw-pointer instantiation (R11.life); and the "
+                       "projection casts that compile over such a pointer compute the prescribed addresses and extents (O11.cast, engine L). "
                        "Result equality with the raw-pointer run and dereference bounds are run-time quantities and are not decided.")
     rep.trusted = ["clang 14 front end and -O0 IR", "the strict_ptr / StrictAlloc model in checks/c11.py (a superset of test/minimalistic_ptr.cpp's pointer)", "vlib/ir0.py"]
     return rep
